@@ -385,7 +385,25 @@ struct machine
     bool is_mix(long long i) { const std::string& k = at(i).kind; return k == "mo" || k == "po"; }
 
     // compound assignment: destination lifted and writable, source of the same family or plain
-    template <class F, class A, class B> obs cassign(std::true_type, F& f, A& a, B& b) { f(a, b); return project(a); }
+    // the right operand is named as the event's category says: a const lvalue (cl), the register object itself, a
+    // non-const lvalue (lv), or an rvalue (rv: a temporary copy of the register object, moved into the call)
+    int ccat = 0;
+    static int cat_of(const vj::value& a)
+    {
+        if (!a.has("cj")) return 0;
+        const std::string& c = a.str("cj");
+        if (c == "cl") return 0;
+        if (c == "lv") return 1;
+        if (c == "rv") return 2;
+        script_error("bad value category", c);
+    }
+    template <class F, class A, class B> obs cassign(std::true_type, F& f, A& a, B& b)
+    {
+        if (ccat == 1) f(a, b);
+        else if (ccat == 2) { std::decay_t<B> t(b); f(a, std::move(t)); }
+        else f(a, static_cast<const B&>(b));
+        return project(a);
+    }
     template <class F, class A, class B> obs cassign(std::false_type, F&, A&, B&) { script_error("not a lifted compound assignment"); }
     template <bool EN, template <class...> class OK, class F> obs compoundT(long long i, long long j, F f)
     {
@@ -654,6 +672,7 @@ struct machine
         if (op == "Compound")
         {
             long long i = a.num("i"), j = a.num("j");
+            ccat = cat_of(a);
             if (is_d(i) || is_d(j)) return do_compound_d(a.str("f"), i, j);
             if (is_mix(i) || is_mix(j)) return do_compound_mix(a.str("f"), i, j);
             return do_compound(a.str("f"), i, j);
@@ -890,7 +909,7 @@ obs machine::do_ternary_d(const std::string& f, long long i, long long j, long l
 obs machine::do_compound_d(const std::string& f, long long i, long long j)
 {
     obs o;
-#define L_ASGOP(name, tok, base) if (f == #name) { o = compound_d<!int_only(#name)>(i, j, [](auto& x, const auto& y) { x tok y; }); o.kind = at(i).kind.c_str(); return o; }
+#define L_ASGOP(name, tok, base) if (f == #name) { o = compound_d<!int_only(#name)>(i, j, [](auto& x, auto&& y) { x tok std::forward<decltype(y)>(y); }); o.kind = at(i).kind.c_str(); return o; }
 #include LIFTED_OPS_DEF
     script_error("unknown compound assignment", f);
 }
@@ -923,7 +942,7 @@ obs machine::do_ternary_mix(const std::string& f, long long i, long long j, long
 obs machine::do_compound_mix(const std::string& f, long long i, long long j)
 {
     obs o;
-#define L_ASGOP(name, tok, base) if (f == #name) { o = compound_mix(i, j, [](auto& x, const auto& y) { x tok y; }); o.kind = at(i).kind.c_str(); return o; }
+#define L_ASGOP(name, tok, base) if (f == #name) { o = compound_mix(i, j, [](auto& x, auto&& y) { x tok std::forward<decltype(y)>(y); }); o.kind = at(i).kind.c_str(); return o; }
 #include LIFTED_OPS_DEF
     script_error("unknown compound assignment", f);
 }
@@ -948,7 +967,7 @@ obs machine::do_binary_fun(const std::string& f, long long i, long long j, long 
 obs machine::do_compound(const std::string& f, long long i, long long j)
 {
     obs o;
-#define L_ASGOP(name, tok, base) if (f == #name) { o = compound(i, j, [](auto& x, const auto& y) { x tok y; }); o.kind = at(i).kind.c_str(); return o; }
+#define L_ASGOP(name, tok, base) if (f == #name) { o = compound(i, j, [](auto& x, auto&& y) { x tok std::forward<decltype(y)>(y); }); o.kind = at(i).kind.c_str(); return o; }
 #include LIFTED_OPS_DEF
     script_error("unknown compound assignment", f);
 }
